@@ -259,6 +259,25 @@ func checkC13(rc *Run) error {
 	}
 	close(jobs)
 	wg.Wait()
+	// ---- a merge source Gen_Anchors does not write: an ALIAS that stands for a list of maps (`<<: *l`, l a sequence of maps) -
+	// the alias stands for its anchored node, so the three routes read what the list written in place gives
+	{
+		xdir := filepath.Join(rc.Out, "extra")
+		os.MkdirAll(xdir, 0o755)
+		text := "l: &l [{x: 1}, {y: 2}]\nd:\n  <<: *l\n  z: 3\n"
+		for _, xc := range []struct{ name, expr, want string }{
+			{"traverse", `[.d.x, .d.y, .d.z]`, `[1,2,3]`},
+			{"explode", `explode(.) | .d | [.x, .y, .z, length]`, `[1,2,3,3]`},
+			{"json-convert", `.d | [.x, .y, .z]`, `[1,2,3]`},
+			{"wildcard", `[.d[]] | sort`, `[1,2,3]`},
+		} {
+			p := runProc(xdir, []byte(text), "-o=json", "-I0", xc.expr)
+			if got := strings.TrimSpace(p.Stdout); p.Hang || p.Code != 0 || got != xc.want {
+				rc.Report("extra:alias-to-a-list-of-maps:"+xc.name, fmt.Sprintf("yq '%s' on %q prints %q (exit %d, %s); the merge-key rules give %s", xc.expr, text, p.Stdout, p.Code, firstLine(p.Stderr), xc.want),
+					M{"machine": "Anchors", "concrete": M{"argv": []string{"yq", "-o=json", "-I0", xc.expr}, "input_yaml": text}, "expected": xc.want, "observed": p.Stdout})
+			}
+		}
+	}
 	rc.Set("states", res.Distinct)
 	rc.Set("transitions", res.Generated)
 	rc.Set("traces_validated_against_impl", reads)
